@@ -1,6 +1,6 @@
 (* Proofs over the reals about Sdf/Build.v (sdf/poly.go): fillets, chamfers, arcs,
    relative and polar vertices, N-gons. *)
-From Coq Require Import Reals Lra Lia List Bool ZArith Psatz.
+From Coq Require Import Reals Lra Lia List Bool ZArith Psatz Nsatz.
 From Sdfx Require Import Num.Ops Num.RInst Geo.Vec Sdf.Build.
 Import ListNotations.
 Open Scope R_scope.
@@ -44,7 +44,7 @@ Qed.
 Lemma normalize_scale (a : V) : 0 < v2len2 a -> a = v2muls (v2normalize a) (v2len a).
 Proof.
   intros H. pose proof (len_pos a H) as HL. destruct a as [x y]. unfold v2normalize.
-  set (L := v2len _) in *. apply V_eq; cbn; field; lra.
+  set (L := v2len _) in *. clearbody L. apply V_eq; rops; field; lra.
 Qed.
 
 (* (u.w)^2 + (u x w)^2 = 1 for unit vectors *)
@@ -83,12 +83,12 @@ Lemma rot_seq_length n m rv : length (@rot_seq ROps n m rv) = n.
 Proof. revert rv; induction n; intros; cbn; [reflexivity | now rewrite IHn]. Qed.
 
 Lemma rot_seq_nth : forall n a rv j d, (j < n)%nat ->
-  nth j (@rot_seq ROps n (rotate a) rv) d = rotv (INR j * a) rv.
+  List.nth j (@rot_seq ROps n (rotate a) rv) d = rotv (INR j * a) rv.
 Proof.
   induction n; intros a rv j d Hj; [lia|].
   destruct j as [|j].
-  - cbn [rot_seq nth]. change (INR 0) with 0. rewrite Rmult_0_l, rotv_0. reflexivity.
-  - cbn [rot_seq nth]. rewrite IHn by lia. rewrite mulpos_rotate, rotv_add.
+  - cbn [rot_seq List.nth]. change (INR 0) with 0. rewrite Rmult_0_l, rotv_0. reflexivity.
+  - cbn [rot_seq List.nth]. rewrite IHn by lia. rewrite mulpos_rotate, rotv_add.
     f_equal. rewrite S_INR. ring.
 Qed.
 
@@ -101,4 +101,336 @@ Qed.
 Lemma dist_add_c (c w : V) : dist (v2add c w) c = v2len w.
 Proof.
   unfold dist, v2len, v2len2, v2dot. destruct c as [cx cy], w as [x y]. cbn. f_equal. ring.
+Qed.
+
+(* ------------------------------------------------------------ sign, angles *)
+Lemma sign_neg (x : R) : x < 0 -> @sign ROps x = -1.
+Proof. intros H. unfold sign. rops. destruct (Rltb_true x 0) as [_ E]. rewrite (E H). reflexivity. Qed.
+Lemma sign_pos (x : R) : 0 < x -> @sign ROps x = 1.
+Proof.
+  intros H. unfold sign. rops.
+  destruct (Rltb x 0) eqn:C1; [apply Rltb_true in C1; lra|].
+  destruct (Rltb_true 0 x) as [_ E]. rewrite (E H). reflexivity.
+Qed.
+Lemma sign_sq (x : R) : x <> 0 -> @sign ROps x * @sign ROps x = 1 /\ @sign ROps x * Rabs x = x.
+Proof.
+  intros H. destruct (Rlt_dec x 0) as [N|N].
+  - rewrite (sign_neg x N), (Rabs_left x N). split; ring.
+  - assert (P : 0 < x) by lra. rewrite (sign_pos x P), (Rabs_right x) by lra. split; ring.
+Qed.
+
+Lemma acos_facts (k : R) : -1 < k < 1 ->
+  let t := acos k in 0 < t < PI /\ cos t = k /\ 0 < sin t /\ sin t * sin t = 1 - k * k.
+Proof.
+  intros Hk t. assert (C : cos t = k) by (apply cos_acos; lra).
+  pose proof (acos_bound k) as B. fold t in B.
+  assert (T0 : t <> 0) by (intros E; rewrite E, cos_0 in C; lra).
+  assert (T1 : t <> PI) by (intros E; rewrite E, cos_PI in C; lra).
+  assert (TT : 0 < t < PI) by lra.
+  split; [exact TT|]. split; [exact C|].
+  split; [apply sin_gt_0; lra|].
+  pose proof (sin2_cos2 t) as H. unfold Rsqr in H. rewrite C in H. lra.
+Qed.
+
+Lemma half_angle (t : R) : 0 < t < PI ->
+  0 < cos (t / 2) /\ 0 < sin (t / 2) /\ 2 * (cos (t / 2) * cos (t / 2)) = 1 + cos t /\
+  2 * (sin (t / 2) * sin (t / 2)) = 1 - cos t /\ sin t = 2 * sin (t / 2) * cos (t / 2).
+Proof.
+  intros Ht. pose proof PI_RGT_0.
+  assert (C : 0 < cos (t / 2)) by (apply cos_gt_0; lra).
+  assert (S : 0 < sin (t / 2)) by (apply sin_gt_0; lra).
+  assert (E : t = 2 * (t / 2)) by field.
+  pose proof (cos_2a_cos (t / 2)) as H1. pose proof (sin_2a (t / 2)) as H2. rewrite <- E in H1, H2.
+  pose proof (sin2_cos2 (t / 2)) as H3. unfold Rsqr in H3.
+  repeat split; try assumption; lra.
+Qed.
+
+(* rotation by the signed angle s*(PI - t) *)
+Lemma cos_sin_signed (s t : R) : s = 1 \/ s = -1 ->
+  cos (s * (PI - t)) = - cos t /\ sin (s * (PI - t)) = s * sin t.
+Proof.
+  assert (C : cos (PI - t) = - cos t) by (rewrite cos_minus, cos_PI, sin_PI; ring).
+  assert (S : sin (PI - t) = sin t) by (rewrite sin_minus, cos_PI, sin_PI; ring).
+  intros [E|E]; subst s.
+  - rewrite Rmult_1_l, C, S. split; ring.
+  - replace (-1 * (PI - t)) with (- (PI - t)) by ring. rewrite cos_neg, sin_neg, C, S. split; ring.
+Qed.
+
+(* ------------------------------------------------------------ the corner, in coordinates *)
+Section Corner.
+  (* unit vectors u0 = (a, b) towards the previous vertex, u1 = (c, d) towards the next one *)
+  Variables a b c d r : R.
+  Hypothesis U0 : a * a + b * b = 1.
+  Hypothesis U1 : c * c + d * d = 1.
+  Let k := a * c + b * d.            (* u0 . u1 *)
+  Let x := c * b - d * a.            (* u1 x u0 *)
+  Hypothesis NC : x <> 0.
+
+  Lemma corner_kx : k * k + x * x = 1.
+  Proof. unfold k, x. nsatz. Qed.
+
+  Lemma corner_k_range : -1 < k < 1.
+  Proof. pose proof corner_kx. assert (0 < x * x) by nra. nra. Qed.
+
+  Lemma corner_rot_u0 : - k * a - x * b = - c /\ x * a - k * b = - d.
+  Proof. unfold k, x. split; nsatz. Qed.
+  Lemma corner_rot_u1 : - k * c - x * d = a - 2 * k * c /\ x * c - k * d = b - 2 * k * d.
+  Proof. unfold k, x. split; nsatz. Qed.
+
+  Let th := acos k.
+  Let ch := cos (th / 2).
+  Let sh := sin (th / 2).
+  Lemma corner_half : 0 < ch /\ 0 < sh /\ 2 * (ch * ch) = 1 + k /\ 2 * (sh * sh) = 1 - k /\ 0 < th < PI.
+  Proof.
+    destruct (acos_facts k corner_k_range) as (T & C & _ & _). fold th in T, C.
+    destruct (half_angle th T) as (H1 & H2 & H3 & H4 & _). fold ch sh in H1, H2, H3, H4.
+    rewrite C in H3, H4. repeat split; try assumption; lra.
+  Qed.
+
+  Lemma corner_x2 : x * x = 4 * (ch * ch) * (sh * sh).
+  Proof. destruct corner_half as (_ & _ & H3 & H4 & _). pose proof corner_kx. nra. Qed.
+
+  Let L := sqrt ((a + c) * (a + c) + (b + d) * (b + d)).
+  Lemma corner_bis_len : L = 2 * ch.
+  Proof.
+    destruct corner_half as (H1 & _ & H3 & _). unfold L.
+    pose proof (Rle_0_sqr (a + c)) as Q1. pose proof (Rle_0_sqr (b + d)) as Q2. unfold Rsqr in Q1, Q2.
+    apply sqrt_lem_1; [lra | lra |].
+    unfold k in H3. lra.
+  Qed.
+
+  Let lam := r / (2 * ch * sh).
+  Let d1 := r / (sh / ch).
+  Let d2 := r / sh.
+
+  (* (tangent point on the edge towards u0) - centre, and the same towards u1 *)
+  Lemma corner_rv0 : a * d1 - (a + c) * (1 / L) * d2 = lam * (k * a - c) /\
+                     b * d1 - (b + d) * (1 / L) * d2 = lam * (k * b - d).
+  Proof.
+    destruct corner_half as (H1 & H2 & H3 & _). rewrite corner_bis_len.
+    replace k with (2 * (ch * ch) - 1) by lra. unfold lam, d1, d2. split; field; lra.
+  Qed.
+  Lemma corner_rv1 : c * d1 - (a + c) * (1 / L) * d2 = lam * (k * c - a) /\
+                     d * d1 - (b + d) * (1 / L) * d2 = lam * (k * d - b).
+  Proof.
+    destruct corner_half as (H1 & H2 & H3 & _). rewrite corner_bis_len.
+    replace k with (2 * (ch * ch) - 1) by lra. unfold lam, d1, d2. split; field; lra.
+  Qed.
+  (* centre - vertex = lam * (u0 + u1) *)
+  Lemma corner_cv : (a + c) * (1 / L) * d2 = lam * (a + c) /\ (b + d) * (1 / L) * d2 = lam * (b + d).
+  Proof.
+    destruct corner_half as (H1 & H2 & _). rewrite corner_bis_len. unfold lam, d2. split; field; lra.
+  Qed.
+
+  Lemma corner_rv_len2 : lam * (k * a - c) * (lam * (k * a - c)) + lam * (k * b - d) * (lam * (k * b - d)) = r * r.
+  Proof.
+    destruct corner_half as (H1 & H2 & H3 & H4 & _).
+    assert (E : (k * a - c) * (k * a - c) + (k * b - d) * (k * b - d) = 1 - k * k).
+    { replace ((k * a - c) * (k * a - c) + (k * b - d) * (k * b - d))
+        with (k * k * (a * a + b * b) - 2 * k * (a * c + b * d) + (c * c + d * d)) by ring.
+      rewrite U0, U1. fold k. ring. }
+    replace (lam * (k * a - c) * (lam * (k * a - c)) + lam * (k * b - d) * (lam * (k * b - d)))
+      with (lam * lam * ((k * a - c) * (k * a - c) + (k * b - d) * (k * b - d))) by ring.
+    rewrite E. replace (1 - k * k) with ((1 - k) * (1 + k)) by ring. rewrite <- H3, <- H4.
+    unfold lam. field. lra.
+  Qed.
+
+  (* the rotation by sign(x) * (PI - th) has cosine -k and sine x *)
+  Lemma corner_rot_end :
+    - k * (lam * (k * a - c)) - x * (lam * (k * b - d)) = lam * (k * c - a) /\
+    x * (lam * (k * a - c)) + - k * (lam * (k * b - d)) = lam * (k * d - b).
+  Proof. unfold k, x. split; nsatz. Qed.
+
+  Lemma corner_lamx : lam * x * (lam * x) = r * r.
+  Proof.
+    destruct corner_half as (H1 & H2 & _). rewrite (Rmult_comm lam x).
+    replace (x * lam * (x * lam)) with (x * x * (lam * lam)) by ring. rewrite corner_x2.
+    unfold lam. field. lra.
+  Qed.
+  Lemma corner_d1 : lam * (1 + k) = d1.
+  Proof.
+    destruct corner_half as (H1 & H2 & H3 & _). rewrite <- H3. unfold lam, d1. field. lra.
+  Qed.
+  Lemma corner_sin : sin th = Rabs x.
+  Proof.
+    destruct (acos_facts k corner_k_range) as (_ & _ & S & S2). fold th in S, S2.
+    pose proof corner_kx. unfold Rabs. destruct (Rcase_abs x); nra.
+  Qed.
+End Corner.
+
+(* ------------------------------------------------------------ smoothVertex *)
+Definition corner_ok (vp v vn : V) : Prop :=
+  0 < v2len2 (v2sub vp v) /\ 0 < v2len2 (v2sub vn v) /\
+  v2cross (smooth_v0 vn v) (smooth_v0 vp v) <> 0.
+
+(* r / (2 cos(theta/2) sin(theta/2)) = r / sin theta *)
+Definition corner_lam (vp v vn : V) (r : R) : R :=
+  r / (2 * cos (smooth_theta vp v vn / 2) * sin (smooth_theta vp v vn / 2)).
+
+Ltac two_is_2 := replace (1 + 1) with 2 in * by lra.
+
+(* the three vectors everything is built from, in terms of the unit edge directions *)
+Lemma smooth_vectors vp v vn r : corner_ok vp v vn ->
+  let u0 := smooth_v0 vp v in let u1 := smooth_v0 vn v in
+  let k := v2dot u0 u1 in let lam := corner_lam vp v vn r in
+  let c := smooth_centre vp v vn r in
+  v2sub (smooth_tangent vp vp v vn r) c = mkV2 (lam * (k * vx u0 - vx u1)) (lam * (k * vy u0 - vy u1)) /\
+  v2sub (smooth_tangent vn vp v vn r) c = mkV2 (lam * (k * vx u1 - vx u0)) (lam * (k * vy u1 - vy u0)) /\
+  v2sub c v = mkV2 (lam * (vx u0 + vx u1)) (lam * (vy u0 + vy u1)).
+Proof.
+  intros (H0 & H1 & NC). cbv zeta.
+  unfold corner_lam, smooth_tangent, smooth_centre, smooth_d1, smooth_theta.
+  assert (U0 : is_unit (smooth_v0 vp v)) by (apply normalize_unit; exact H0).
+  assert (U1 : is_unit (smooth_v0 vn v)) by (apply normalize_unit; exact H1).
+  set (u0 := smooth_v0 vp v) in *. set (u1 := smooth_v0 vn v) in *. clearbody u0 u1.
+  destruct u0 as [a b], u1 as [c d], v as [px py]. unfold is_unit in U0, U1.
+  rops. two_is_2. unfold tan.
+  pose proof (corner_rv0 a b c d r U0 U1 NC) as [E1 E2].
+  pose proof (corner_rv1 a b c d r U0 U1 NC) as [E3 E4].
+  pose proof (corner_cv a b c d r U0 U1 NC) as [E5 E6].
+  cbv zeta in E1, E2, E3, E4, E5, E6.
+  repeat split; apply V_eq; rops.
+  - rewrite <- E1. ring.
+  - rewrite <- E2. ring.
+  - rewrite <- E3. ring.
+  - rewrite <- E4. ring.
+  - rewrite <- E5. ring.
+  - rewrite <- E6. ring.
+Qed.
+
+Lemma smooth_rv_len2 vp v vn r : corner_ok vp v vn ->
+  v2len2 (v2sub (smooth_tangent vp vp v vn r) (smooth_centre vp v vn r)) = r * r.
+Proof.
+  intros OK. destruct (smooth_vectors vp v vn r OK) as (E & _ & _). cbv zeta in E. rewrite E.
+  destruct OK as (H0 & H1 & NC).
+  assert (U0 : is_unit (smooth_v0 vp v)) by (apply normalize_unit; exact H0).
+  assert (U1 : is_unit (smooth_v0 vn v)) by (apply normalize_unit; exact H1).
+  unfold corner_lam, smooth_theta.
+  set (u0 := smooth_v0 vp v) in *. set (u1 := smooth_v0 vn v) in *. clearbody u0 u1.
+  destruct u0 as [a b], u1 as [c d]. unfold is_unit in U0, U1. rops.
+  pose proof (corner_rv_len2 a b c d r U0 U1 NC) as E1. cbv zeta in E1. exact E1.
+Qed.
+
+Lemma smooth_points_length (vp v vn : V) (r : R) n : length (smooth_points vp v vn r n) = Z.to_nat (n + 1).
+Proof. unfold smooth_points. rewrite map_length, rot_seq_length. reflexivity. Qed.
+
+(* every generated point is at distance r from the computed centre *)
+Theorem smooth_points_on_circle vp v vn r n p : corner_ok vp v vn -> 0 < r ->
+  In p (smooth_points vp v vn r n) -> dist p (smooth_centre vp v vn r) = r.
+Proof.
+  intros OK Hr Hin. unfold smooth_points in Hin. apply in_map_iff in Hin. destruct Hin as (w & <- & Hw).
+  apply In_rot_seq in Hw. destruct Hw as (j & _ & ->).
+  rewrite dist_add_c. unfold v2len. rewrite rotv_len2, smooth_rv_len2 by exact OK.
+  cbn [osqrt ROps]. apply sqrt_square. lra.
+Qed.
+
+(* the centre is at distance r from both edge lines (unit directions u0, u1 through v) *)
+Theorem smooth_centre_tangent vp v vn r : corner_ok vp v vn -> 0 < r ->
+  let c := smooth_centre vp v vn r in
+  Rabs (v2cross (v2sub c v) (smooth_v0 vp v)) = r /\ Rabs (v2cross (v2sub c v) (smooth_v0 vn v)) = r.
+Proof.
+  intros OK Hr. cbv zeta. destruct (smooth_vectors vp v vn r OK) as (_ & _ & E). cbv zeta in E. rewrite E.
+  destruct OK as (H0 & H1 & NC).
+  assert (U0 : is_unit (smooth_v0 vp v)) by (apply normalize_unit; exact H0).
+  assert (U1 : is_unit (smooth_v0 vn v)) by (apply normalize_unit; exact H1).
+  unfold corner_lam, smooth_theta.
+  set (u0 := smooth_v0 vp v) in *. set (u1 := smooth_v0 vn v) in *. clearbody u0 u1.
+  destruct u0 as [a b], u1 as [c d]. unfold is_unit in U0, U1. rops.
+  pose proof (corner_lamx a b c d r U0 U1 NC) as E1. cbv zeta in E1.
+  set (lam := r / _) in *. clearbody lam.
+  split.
+  - replace (lam * (a + c) * b - lam * (b + d) * a) with (lam * (c * b - d * a)) by ring.
+    unfold Rabs. destruct (Rcase_abs _); nra.
+  - replace (lam * (a + c) * d - lam * (b + d) * c) with (- (lam * (c * b - d * a))) by ring.
+    unfold Rabs. destruct (Rcase_abs _); nra.
+Qed.
+
+(* a point p of the circle (centre c, radius r) where it touches the line through v with direction u *)
+Definition tangent_at (p c v u : V) (r : R) : Prop :=
+  v2cross (v2sub p v) u = 0 /\ v2dot (v2sub p c) u = 0 /\ dist p c = r.
+
+Lemma smooth_tangent_is_tangent vp v vn r : corner_ok vp v vn -> 0 < r ->
+  tangent_at (smooth_tangent vp vp v vn r) (smooth_centre vp v vn r) v (smooth_v0 vp v) r /\
+  tangent_at (smooth_tangent vn vp v vn r) (smooth_centre vp v vn r) v (smooth_v0 vn v) r.
+Proof.
+  intros OK Hr. pose proof (smooth_rv_len2 vp v vn r OK) as RL.
+  destruct (smooth_vectors vp v vn r OK) as (E0 & E1 & _). cbv zeta in E0, E1.
+  unfold tangent_at. rewrite !dist_len. unfold v2len. rewrite RL.
+  assert (RL1 : v2len2 (v2sub (smooth_tangent vn vp v vn r) (smooth_centre vp v vn r)) = r * r).
+  { rewrite E1. rewrite E0 in RL. revert RL. rops. intros RL.
+    destruct OK as (H0 & H1 & NC).
+    assert (U0 : is_unit (smooth_v0 vp v)) by (apply normalize_unit; exact H0).
+    assert (U1 : is_unit (smooth_v0 vn v)) by (apply normalize_unit; exact H1).
+    unfold is_unit in U0, U1. revert RL U0 U1. rops.
+    set (lam := corner_lam _ _ _ _). generalize lam. clear. intros lam.
+    destruct (smooth_v0 vp v) as [a b], (smooth_v0 vn v) as [c d]. rops. intros RL U0 U1.
+    nsatz. }
+  rewrite RL1, E0, E1. cbn [osqrt ROps]. rewrite sqrt_square by lra.
+  destruct OK as (H0 & H1 & NC).
+  assert (U0 : is_unit (smooth_v0 vp v)) by (apply normalize_unit; exact H0).
+  assert (U1 : is_unit (smooth_v0 vn v)) by (apply normalize_unit; exact H1).
+  unfold smooth_tangent. set (d1 := smooth_d1 _ _ _ _). clearbody d1.
+  set (lam := corner_lam _ _ _ _). clearbody lam.
+  destruct (smooth_v0 vp v) as [a b], (smooth_v0 vn v) as [c d], v as [px py]. unfold is_unit in U0, U1.
+  rops. repeat split; try reflexivity; try nsatz.
+Qed.
+
+Lemma v2add_sub_cancel (c p : V) : v2add c (v2sub p c) = p.
+Proof. destruct c, p. apply V_eq; rops; ring. Qed.
+
+Lemma smooth_points_nth (vp v vn : V) (r : R) n j d : (j < Z.to_nat (n + 1))%nat ->
+  List.nth j (smooth_points vp v vn r n) d =
+  v2add (smooth_centre vp v vn r)
+        (rotv (INR j * smooth_dtheta vp v vn n)
+              (v2sub (smooth_tangent vp vp v vn r) (smooth_centre vp v vn r))).
+Proof.
+  intros Hj. unfold smooth_points.
+  rewrite (nth_indep _ d (v2add (smooth_centre vp v vn r) d))
+    by (rewrite map_length, rot_seq_length; exact Hj).
+  rewrite map_nth. rewrite rot_seq_nth by exact Hj. reflexivity.
+Qed.
+
+(* the first generated point is the tangent point on the edge towards the previous vertex *)
+Theorem smooth_starts_at_tangent (vp v vn : V) (r : R) n d : (0 <= n)%Z ->
+  List.nth 0 (smooth_points vp v vn r n) d = smooth_tangent vp vp v vn r.
+Proof.
+  intros Hn. rewrite smooth_points_nth by lia. change (INR 0) with 0.
+  rewrite Rmult_0_l, rotv_0. apply v2add_sub_cancel.
+Qed.
+
+(* n * dtheta = sign * (PI - theta): the last generated point (index facets) is the tangent
+   point on the edge towards the next vertex *)
+Theorem smooth_ends_at_tangent (vp v vn : V) (r : R) n dflt : corner_ok vp v vn -> (1 <= n)%Z ->
+  List.nth (Z.to_nat n) (smooth_points vp v vn r n) dflt = smooth_tangent vn vp v vn r.
+Proof.
+  intros OK Hn. rewrite smooth_points_nth by lia.
+  rewrite <- (v2add_sub_cancel (smooth_centre vp v vn r) (smooth_tangent vn vp v vn r)). f_equal.
+  destruct (smooth_vectors vp v vn r OK) as (E0 & E1 & _). cbv zeta in E0, E1. rewrite E0, E1.
+  destruct OK as (H0 & H1 & NC).
+  assert (U0 : is_unit (smooth_v0 vp v)) by (apply normalize_unit; exact H0).
+  assert (U1 : is_unit (smooth_v0 vn v)) by (apply normalize_unit; exact H1).
+  (* the total angle *)
+  assert (EA : INR (Z.to_nat n) * smooth_dtheta vp v vn n =
+               @sign ROps (v2cross (smooth_v0 vn v) (smooth_v0 vp v)) * (PI - smooth_theta vp v vn)).
+  { rewrite INR_IZR_INZ, Z2Nat.id by lia. unfold smooth_dtheta. rops. field.
+    apply not_0_IZR. lia. }
+  rewrite EA. clear EA.
+  destruct (sign_sq _ NC) as (SS & SA).
+  assert (S1 : @sign ROps (v2cross (smooth_v0 vn v) (smooth_v0 vp v)) = 1 \/
+               @sign ROps (v2cross (smooth_v0 vn v) (smooth_v0 vp v)) = -1).
+  { destruct (Rlt_dec (v2cross (smooth_v0 vn v) (smooth_v0 vp v)) 0) as [N|N].
+    - right. apply sign_neg, N.
+    - left. apply sign_pos. lra. }
+  destruct (cos_sin_signed _ (smooth_theta vp v vn) S1) as (EC & ES).
+  unfold rotv. rewrite EC, ES. clear EC ES S1.
+  unfold corner_lam in *. unfold smooth_theta in *.
+  set (u0 := smooth_v0 vp v) in *. set (u1 := smooth_v0 vn v) in *. clearbody u0 u1.
+  destruct u0 as [a b], u1 as [c d]. unfold is_unit in U0, U1. revert NC SS SA. rops. intros NC SS SA.
+  destruct (acos_facts _ (corner_k_range a b c d U0 U1 NC)) as (_ & CK & _ & _).
+  pose proof (corner_sin a b c d U0 U1 NC) as SK. cbv zeta in SK.
+  rewrite CK, SK, SA.
+  pose proof (corner_rot_end a b c d r U0 U1) as [R1 R2]. cbv zeta in R1, R2.
+  apply V_eq; rops.
+  - rewrite <- R1. ring.
+  - rewrite <- R2. ring.
 Qed.
